@@ -2,12 +2,13 @@
 # eval_all_seeds.sh [names...]: run the quick check of each kept seeded change's property against a scratch worktree carrying the change;
 # prints one line per seed: <name> caught|MISSED <first FAILED-OBLIGATION / UNDECIDED line>.  Worktrees live under /tmp and are removed.
 cd "$(dirname "$0")/.."
+VROOT=$(pwd)
 NAMES=${*:-$(ls seeded)}
 for n in $NAMES; do
   P=$(echo $n | cut -d- -f1)
   WT=$(mktemp -d /tmp/evalwt_XXXX); rmdir $WT
   git -C /repo worktree add -q --detach $WT HEAD || exit 9
-  if ! (cd $WT && git apply $(pwd)/seeded/$n/patch.diff 2>/dev/null); then echo "$n PATCH-DOES-NOT-APPLY"; git -C /repo worktree remove --force $WT; continue; fi
+  if ! (cd $WT && git apply $VROOT/seeded/$n/patch.diff 2>/dev/null); then echo "$n PATCH-DOES-NOT-APPLY"; git -C /repo worktree remove --force $WT; continue; fi
   out=$(COMA_REPO=$WT timeout 1800 ./vcheck $P --tier quick 2>&1); rc=$?
   line=$(echo "$out" | grep -m1 "^FAILED-OBLIGATION" | cut -c1-220)
   und=$(echo "$out" | grep -m1 "^UNDECIDED" | cut -c1-160)
